@@ -273,7 +273,74 @@ func c07EnumerateBig(thorough bool) []c07ID {
 			ids = append(ids, c07ID{Family: "longjump", P: []int{kind, n}})
 		}
 	}
+	// operand fields other than the jump distance that a large enough function overflows: the id of
+	// a label (carried in sBx until the jump is patched), the value count of CALL/VARARG (9 bits),
+	// the prototype number of CLOSURE (18 bits). Each case either compiles to code that runs as
+	// predicted or is refused by the compiler; a field that wraps around shows as a wrong result,
+	// a fault or a verifier report.
+	labels := []int{87381, 87400}
+	targets := []int{200, 250, 254, 255, 256, 400, 509, 510, 511, 512, 600}
+	if thorough {
+		labels = []int{43000, 44000, 87300, 87380, 87381, 87382, 87400, 131072}
+		ids = append(ids, c07ID{Family: "limits", P: []int{3, 262143}}, c07ID{Family: "limits", P: []int{3, 262145}})
+	}
+	for _, n := range labels {
+		ids = append(ids, c07ID{Family: "limits", P: []int{0, n}})
+	}
+	for _, n := range targets {
+		ids = append(ids, c07ID{Family: "limits", P: []int{1, n}}, c07ID{Family: "limits", P: []int{2, n}})
+	}
 	return ids
+}
+
+var c07LimitKinds = []string{"labels", "global-targets-from-call", "local-names-from-vararg", "closures"}
+
+func c07MakeLimit(id c07ID, kind, n int) *c07Case {
+	if n < 1 || n > 300000 {
+		return nil
+	}
+	var sb strings.Builder
+	var want float64
+	switch c07LimitKinds[kind] {
+	case "labels":
+		sb.WriteString("local x,y=false,0\n")
+		for i := 0; i < n; i++ {
+			sb.WriteString("if true then end\n")
+		}
+		sb.WriteString("if x then y=y+1 end\nreturn y\n")
+		want = 0
+	case "global-targets-from-call":
+		sb.WriteString("local function f(...) return ... end\n")
+		for i := 1; i <= n; i++ {
+			if i > 1 {
+				sb.WriteString(",")
+			}
+			fmt.Fprintf(&sb, "g%d", i)
+		}
+		sb.WriteString(" = f(1,2,3)\nreturn g1+g2+g3+(g4==nil and 10 or 0)\n")
+		want = 16
+	case "local-names-from-vararg":
+		sb.WriteString("local function f(...)\nlocal ")
+		for i := 1; i <= n; i++ {
+			if i > 1 {
+				sb.WriteString(",")
+			}
+			fmt.Fprintf(&sb, "l%d", i)
+		}
+		sb.WriteString(" = ...\nreturn l1+l2+l3+(l4==nil and 10 or 0)\nend\nreturn f(1,2,3)\n")
+		want = 16
+	case "closures":
+		sb.WriteString("local first=function() return 1 end\n")
+		for i := 0; i < n-2; i++ {
+			sb.WriteString("g=function() end\n")
+		}
+		sb.WriteString("local last=function() return 20 end\nreturn first()+last()\n")
+		want = 21
+	default:
+		return nil
+	}
+	return &c07Case{ID: id, Src: sb.String(), Exec: true, Budget: 8*int64(n) + 100000, Expect: c07ExpectNum(want), ExSig: "limits/" + c07LimitKinds[kind],
+		Note: fmt.Sprintf("%s: %d (an operand field of the instruction format is about to overflow)", c07LimitKinds[kind], n)}
 }
 
 // ---- case construction ---------------------------------------------------------------------------
@@ -335,6 +402,10 @@ func c07Make(id c07ID) *c07Case {
 	case "seq":
 		if len(p) >= 1 {
 			return c07MakeSeq(id, p[0], p[1:])
+		}
+	case "limits":
+		if need(2) && p[0] >= 0 && p[0] < len(c07LimitKinds) {
+			return c07MakeLimit(id, p[0], p[1])
 		}
 	}
 	return nil
